@@ -20,7 +20,7 @@ RULE = ('cases = (numeric string column, transformer name): columns of numeric s
         '(transformer name, column class, column hash); non-trivial = the column was emitted, or dropped by a rule clause other than '
         '"constant".')
 REQUIRED = {'emitted-cell=named-formula': 500, 'emitted-only-if-rule': 200, 'dropped-only-if-rule-fails': 200, 'preset-union': 20, 'fw-names-recognised': 1}
-ASSUMPTIONS = ['inputs parse to finite floats (NaN/inf literals are not fed)', 'rounding is IEEE half-even; a cell whose pre-rounding value lies within 1e-9 of a .5 boundary is skipped',
+ASSUMPTIONS = ['inputs parse to floats; literals overflowing to +-inf are fed, NaN literals are not', 'rounding is IEEE half-even; for the log-based transformers a cell one unit off at a .5 boundary is skipped (1-ulp differences between log implementations); sqrt-based and division-based ties are exact',
                'for dropped candidates the keep rule is evaluated on the oracle column and borderline cases (decision flips when values closer than 1e-12 are merged, or +-0.0 both present) are skipped',
                'the asinh-style formula is not compared for x < -1e6 (catastrophic cancellation makes the naive formula itself rounding-dominated)']
 WARM = [{}]
@@ -153,6 +153,8 @@ def column_classes(rng, nprng, thresholds):
     col = [repr(float(-2 - i % 3)) for i in range(k)] + [repr(float(1 + i)) for i in range(n - k)]
     rng.shuffle(col)
     yield 'nan-share-%s75pct' % ('exact-' if k == int(n * 0.75) else 'near-'), col
+    yield 'overflowing-literals', [rng.choice(['1e999', '-1e400', '1e999', '5', '7', '0', '12.5']) for _ in range(n)]
+    yield 'quarter-offsets-from-threshold', [repr(th + rng.choice([0.25, 6.25, 20.25, 2.25, 0.0625, 1.5625, 0.5625, 12.25, 1.0, 3.0])) for _ in range(n)]
     yield 'majority-80pct-of-many', [repr(3.0)] * int(n * 0.8) + [repr(float(10 + i)) for i in range(n - int(n * 0.8))]
     yield 'majority-just-below-80pct', [repr(3.0)] * (int(n * 0.8) - 1) + [repr(float(10 + i)) for i in range(n - int(n * 0.8) + 1)]
 
@@ -221,8 +223,9 @@ def verify_column(sh, out, colname, cells, collection_names, cls, counters):
                     continue
                 if gv == gv and e == e and abs(gv - e) <= 1e-12 + 1e-9 * abs(e):
                     continue
-                if ('round' in tname or '*100' in tname or '_fw_' in tname) and gv == gv and e == e and abs(gv - e) <= 1.0 + 1e-9:
-                    # half-way rounding of a value computed with 1-ulp library differences
+                if ('*100' in tname or '_log_' in tname) and gv == gv and e == e and abs(gv - e) <= 1.0 + 1e-9:
+                    # half-way rounding of a value computed with 1-ulp differences between log implementations (sqrt and division are
+                    # correctly rounded everywhere, so rounding ties of the sqrt family and of round(div) are compared exactly)
                     skipped += 1
                     continue
                 bad = (i, g, repr(e), cells[i])
